@@ -9,6 +9,7 @@ import Driver.C20
 import Driver.C01
 import Driver.C02
 import Driver.C04
+import Driver.C05
 import Driver.C06
 import Driver.C07
 import Driver.C08
@@ -26,6 +27,7 @@ def handle (j : Json) : Json :=
   | .ok "C01" => C01.handle j
   | .ok "C02" => C02.handle j
   | .ok "C04" => C04.handle j
+  | .ok "C05" => C05.handle j
   | .ok "C06" => C06.handle j
   | .ok "C07" => C07.handle j
   | .ok "C08" => C08.handle j
